@@ -69,7 +69,8 @@ class MarginalRayHeightSolve(BaseSolve):
     def apply(self):
         """Applies the MarginalRayHeightSolve to the optic."""
         ya, ua = self.optic.paraxial.marginal_ray()
-        offset = (self.height - ya[self.surface_idx]) / ua[self.surface_idx]
+        offset = float(((self.height - ya[self.surface_idx]) /
+                        ua[self.surface_idx])[0])
 
         # shift current surface and all subsequent surfaces
         for surface in self.optic.surface_group.surfaces[self.surface_idx:]:
